@@ -15,6 +15,7 @@ Model of the integration loop (starsim/loop.py, Module/Sim `finish_step`, Sim.ru
 Core Lean only: interpreted by Drivers/C08.lean and Drivers/C09.lean.
 -/
 import StarsimModel.Generated.PhaseOrder
+import StarsimModel.Generated.LoopFacts
 
 namespace StarsimModel.Loop
 
@@ -34,6 +35,11 @@ structure Mod where
 /-- `Sim.modules`: `itertools.chain(demographics, networks, diseases, connectors, interventions, products, analyzers)`. -/
 def chainOrder : List Kind :=
   [.demographics, .networks, .diseases, .connectors, .interventions, .products, .analyzers]
+
+/-- The attribute name of a container in `Sim` (`products`: the `intv.product` comprehension). -/
+def Kind.name : Kind → String
+  | .demographics => "demographics" | .networks => "networks" | .diseases => "diseases" | .connectors => "connectors"
+  | .interventions => "interventions" | .products => "products" | .analyzers => "analyzers"
 
 /-- Owner indices (position in `mods` + 1; owner 0 is the sim) of the modules of one container, in insertion order. -/
 def ofKind (mods : List Mod) (k : Kind) : List Nat :=
